@@ -25,6 +25,7 @@ Definition lit_warn : bytes := B"WARN".
 Definition lit_info : bytes := B"INFO".
 Definition lit_debug : bytes := B"DEBUG".
 Definition lit_trace : bytes := B"TRACE".
+Definition lit_stamp : bytes := B"2026-10-01T21:07:51.".
 End Lits.
 
 
@@ -374,3 +375,10 @@ Definition Known_utf16 (ct : option bytes) (frames : list bytes) : bool :=
 Definition Known_kk_sub (sleep_ms slept_ms : N) : bool := sleep_ms <? slept_ms.
 Definition Known_log_header (stamp : bytes) (nanos : N) (level : bytes) : bool :=
   Nat.ltb (Nat.min 23 (length stamp + length (subsec_min nanos)) + length level + 7) 34.
+Definition Known_handler (r : request) : bool :=
+  match rq_route r with
+  | Refused _ d => Known_summary (rq_pre r) d
+  | Forward sign _ d => (sign && Known_header (rq_headers r)) || Known_summary (rq_pre r) d
+  end.
+Definition route_status (r : request) : N :=
+  match rq_route r with Refused st _ => st | Forward _ st _ => st end.
